@@ -18,7 +18,7 @@ KNOWN = {"C11.gevent-worker-with-non-cooperative-body-never-notices": "gevent-no
 
 
 def run_driver(scenarios, death, results, lock):
-    env = dict(os.environ, PYTHONPATH="/repo/src:/verif")
+    env = dict(os.environ, PYTHONPATH=(os.environ.get("VERIF_REPO") or "/repo") + "/src:/verif")
     p = subprocess.Popen(["/venv/bin/python", "/verif/real/c11_driver.py", json.dumps({"scenarios": scenarios, "death": death})],
                          stdout=subprocess.PIPE, stderr=subprocess.DEVNULL, env=env, text=True)
     line = p.stdout.readline()
@@ -50,7 +50,7 @@ def bootstrap_orphan(results, lock):
             "from execnet.gateway_base import get_execmodel\n"
             "io = gateway_io.create_io(XSpec('popen'), get_execmodel('thread'))\nprint(io.popen.pid, flush=True)\ntime.sleep(60)\n")
     p = subprocess.Popen(["/venv/bin/python", "-c", code], stdout=subprocess.PIPE, stderr=subprocess.DEVNULL,
-                         env=dict(os.environ, PYTHONPATH="/repo/src"), text=True)
+                         env=dict(os.environ, PYTHONPATH=(os.environ.get("VERIF_REPO") or "/repo") + "/src"), text=True)
     pid = int(p.stdout.readline())
     os.kill(p.pid, signal.SIGKILL)
     gone = procs.wait_gone([pid], 10.0)
